@@ -1,7 +1,7 @@
 (* Properties/C17.v — Ticks are few enough, nice, ascending, inside the domain; Nice only expands.
    ONLY statements; each is closed by [exact] of a lemma from Proofs/Ticks*.v. *)
 From Coq Require Import Sorted.
-From MM Require Import Base.Num Model.Ticks Proofs.Ticks Proofs.TicksLinear.
+From MM Require Import Base.Num Model.Ticks Proofs.Ticks Proofs.TicksLinear Proofs.TicksLog.
 Local Open Scope Z_scope.
 
 (* ================= FindLevel (ticks.go:56-101) ================= *)
@@ -137,3 +137,77 @@ Example C17_linear_example :
   lin_count 0 10 (-1) 2 true 0 = 4%Z /\ lin_count 0 10 (-1) 2 true 7 = 3%Z.
 Proof. vm_compute. repeat split; reflexivity. Qed.
 End Linear.
+
+(* ================= Log ticks (log.go:111-207) ================= *)
+(* A Log scale's tick positions are powers of Base.  [log_exps] computes once per scale the
+   interval [in_lo, in_hi] of admitted exponents (domain ends with the slack of log.go:118-128);
+   level l >= 0 keeps the exponents that are multiples of 2^l, i.e. powers of Base^(2^l). *)
+Section Log.
+Local Open Scope Z_scope.
+
+(* TicksAtLevel(l), l >= 0: exactly the powers Base^(n 2^l) with an admitted exponent, in
+   ascending order; CountTicks(l) is its length *)
+Theorem C17_log_ticks_at_level : forall b e emin emax l, 2 <= b -> le_in_lo e <= le_in_hi e + 1 -> 0 <= l ->
+  (forall v, In v (log_ticks_pos b e emin emax false l) <->
+             exists n, v = qpow b (n * 2 ^ l) /\ le_in_lo e <= n * 2 ^ l <= le_in_hi e) /\
+  StronglySorted Qlt (log_ticks_pos b e emin emax false l) /\
+  log_count e false l = Z.of_nat (length (log_ticks_pos b e emin emax false l)).
+Proof. intros b e emin emax l Hb He Hl. split; [|split].
+  - intros v. exact (log_ticks_pos_spec b e emin emax He l v Hl).
+  - exact (log_ticks_pos_ascending b e emin emax Hb l Hl).
+  - exact (log_count_is_length b e emin emax He l Hl). Qed.
+Print Assumptions C17_log_ticks_at_level.
+
+(* each level eliminates ticks of the level below, so the count is non-increasing on every
+   window (levels below 0 report maxInt) *)
+Theorem C17_log_nested_and_monotone : forall b e emin emax, le_in_lo e <= le_in_hi e + 1 ->
+  (forall l v, 0 <= l -> In v (log_ticks_pos b e emin emax false (l + 1)) -> In v (log_ticks_pos b e emin emax false l)) /\
+  (log_count e false 0 <= MAXINT -> forall lo hi, nonincreasing (log_count e false) lo hi).
+Proof. intros b e emin emax He. split.
+  - intros l v Hl. exact (log_ticks_nested b e emin emax He l v Hl).
+  - intros H0 lo hi. exact (log_count_nonincreasing e He lo hi H0). Qed.
+Print Assumptions C17_log_nested_and_monotone.
+
+(* Ticks(o) on a positive domain Min < Max: major = TicksAtLevel(l), minor = TicksAtLevel(l-1)
+   for the LOWEST level of the window with at most Max ticks *)
+Theorem C17_log_ticks : forall b mn mx o major minor lo hi,
+  2 <= b -> (0 < mn)%Q -> (mn < mx)%Q -> level_bounds o = Some (lo, hi) ->
+  let e := log_exps b mn mx in
+  le_in_lo e <= le_in_hi e + 1 -> log_count e false 0 <= MAXINT ->
+  log_ticks b mn mx o = TR_ticks major minor ->
+  exists l, lo <= l <= hi /\
+    major = log_ticks_pos b e mn mx false l /\ minor = log_ticks_pos b e mn mx false (l - 1) /\
+    log_count e false l <= o_max o /\
+    (forall l', lo <= l' < l -> o_max o < log_count e false l') /\
+    (0 <= l -> Z.of_nat (length major) <= o_max o).
+Proof. exact log_ticks_correct. Qed.
+Print Assumptions C17_log_ticks.
+
+(* Nice never shrinks the domain (any sign, any options; when no level fits, or the nice
+   bound would not be a positive finite float64, the end stays), and an end that moves lands
+   on a power of the base *)
+Theorem C17_log_nice_expands : forall b mn mx o a c, (mn <= mx)%Q ->
+  log_nice b mn mx o = (a, c) -> (a <= mn /\ mx <= c)%Q.
+Proof. exact log_nice_expands. Qed.
+Print Assumptions C17_log_nice_expands.
+
+Theorem C17_log_nice_ends_are_powers : forall b mn mx o a c, (0 < mn)%Q -> (mn < mx)%Q ->
+  log_nice b mn mx o = (a, c) ->
+  (a = mn \/ exists n, a = qpow b n /\ f64_pos_ok a = true) /\
+  (c = mx \/ exists n, c = qpow b n /\ f64_pos_ok c = true).
+Proof. exact log_nice_ends_are_powers. Qed.
+Print Assumptions C17_log_nice_ends_are_powers.
+
+(* non-vacuity: [3, 20000] base 10: exponents 1..4; Max = 2 -> level 1 (100, 10000), minor = level 0;
+   Max = 5 -> level 0 with the 2..9 multiples as minor ticks; Nice(Max 3) -> [1, 10^8] (level 2, 3 ticks);
+   negative domain mirrored; Max = 1 never fits when rounding out: domain unchanged (D10) *)
+Example C17_log_example :
+  log_ticks 10 3 20000 (mkOpts 2 0 0) = TR_ticks [100%Q; 10000%Q] [10%Q; 100%Q; 1000%Q; 10000%Q] /\
+  match log_ticks 10 3 20000 (mkOpts 5 0 0) with
+  | TR_ticks ma mi => ma = [10%Q; 100%Q; 1000%Q; 10000%Q] /\ length mi = 36%nat /\ hd 0%Q mi = (3 * 1)%Q
+  | _ => False end /\
+  log_nice 10 3 20000 (mkOpts 3 0 0) = (1%Q, 100000000%Q) /\
+  log_nice 10 (-20000) (-3) (mkOpts 3 0 0) = ((-100000000)%Q, (-1)%Q) /\
+  log_nice 10 3 20000 (mkOpts 1 0 0) = (3%Q, 20000%Q).
+Proof. vm_compute. repeat split; reflexivity. Qed.
+End Log.
